@@ -74,7 +74,7 @@ func (c *Ctx) diagnose(in []byte) string {
 
 func c06(c *Ctx) {
 	c.Rep.TieObs = []string{"O-compile.outcome (ok | panic | hang) of ParseString+Compose"}
-	c.Rep.Rule = "inputs: corpus, every .goht of the repo, hand-written corner seeds, generator files; every k-th prefix, single-byte deletions, structural-token insertions, splices, random bytes, size-scaling families; distinct = distinct input bytes; non-trivial = input reaches the template lexer (contains '@goht') or is a scaling family"
+	c.Rep.Rule = "inputs: corpus, every .goht of the repo, hand-written corner seeds, generator files; every k-th prefix, single-byte deletions, structural-token insertions, splices, several line-level edits at once (indentation removed / reduced / increased / with a blank, lines repeated or swapped), random bytes, every indentation profile (depths 0..3) of templates of up to 4 (thorough: 6) lines, size-scaling families; distinct = distinct input bytes; non-trivial = input reaches the template lexer (contains '@goht') or is a scaling family"
 	var inputs [][]byte
 	var tags []string
 	seenHash := map[[20]byte]bool{}
@@ -178,12 +178,14 @@ func c06(c *Ctx) {
 				add("prefix", gen.Prefixes(s, c.N(7, 1))...)
 			}
 			add("mutant", gen.Mutants(c.R, s, c.N(25, 300))...)
+			add("line-mutant", gen.LineMutants(c.R, s, c.N(12, 150))...)
 			if c.Thorough() && len(s) < 1500 {
 				for i := 0; i < len(s); i++ {
 					add("deletion", append(append([]byte{}, s[:i]...), s[i+1:]...))
 				}
 			}
 		}
+		add("indent-profile", gen.IndentProfiles(c.N(4, 6))...)
 		for k := 0; k < c.N(300, 20000); k++ {
 			n := c.R.Intn(60)
 			b := make([]byte, n)
